@@ -201,12 +201,13 @@ def parseEncoding (e : SExp) : Option (Option Encoding) :=
         let ne : NumEnc := { isFloat := isF, size := sz, encoding := enc, byteOrder := bo, cals := c }
         Encoding.num ne))
     else none
-  | .list [.atom "str", enc, fixed, dyn, lk, uc, adj, term, lead] => do
+  | .list [.atom "str", enc, fixed, dyn, lk, uc, adj, term, lead, bo] => do
+    let bo ← bo.optStr?
     let term : Option Bytes ← if term.isAtom "-" then some none else term.hex?.map some
     let enc ← enc.str?; let fixed ← fixed.optInt?; let dyn ← dyn.optStr?; let lk ← parseLookup lk
     let uc ← uc.bool?; let adj ← parseAdj adj; let lead ← lead.optInt?
     let se : StrEnc := { encoding := enc, fixedLength := fixed, dynRef := dyn, lookup := lk, useCal := uc,
-                         adjuster := adj, termChar := term, leadingSize := lead }
+                         adjuster := adj, termChar := term, leadingSize := lead, byteOrder := bo }
     pure (some (Encoding.str se))
   | .list [.atom "bin", fixed, ref, uc, lk, adj] => do
     let fixed ← fixed.optInt?; let ref ← ref.optStr?; let uc ← uc.bool?; let lk ← parseLookup lk
